@@ -149,7 +149,12 @@ void muggle_async_logger_log(
 	msg->payload = payload;
 
 	// write
-	muggle_channel_write(&async_logger->channel, msg);
+	if (muggle_channel_write(&async_logger->channel, msg) != MUGGLE_OK)
+	{
+		// channel is full: the message is dropped, release it
+		free(payload);
+		async_logger->p_free(msg);
+	}
 
 #if MUGGLE_DEBUG
 	if (level >= MUGGLE_LOG_LEVEL_FATAL)
